@@ -216,6 +216,10 @@ class JinjaInterp:
         self.attr_reads: dict[tuple, tuple[str, str, int, frozenset[str]]] = {}  # (tpl, macro, expr) -> ...
         self.newline_filters: dict[tuple, tuple[str, str, int, str, str]] = {}
         self.unsupported: dict[str, int] = {}
+        # boolean formulas that hold at the statement being interpreted: enclosing `if` / `elif` / `else` arms, loop filters, and the
+        # negation of earlier arms of the same block that ended in `continue` / `break`; used to decide, per candidate template of an
+        # import alias, whether a call through the alias can be reached at all (dispatch totality)
+        self.guards: list[tuple] = []
         self.changed = False
         self.globals: dict[str, AV] = {}
         self.render_kwargs: dict[str, dict[str, AV]] = {}
@@ -364,7 +368,11 @@ class JinjaInterp:
             before = len(self.emissions)
             labels_before = self.macro_labels.get(key, frozenset())
             self._macro_label_acc = set(labels_before)
-            end = self.block(m.body, env, state)
+            saved_guards, self.guards = self.guards, []
+            try:
+                end = self.block(m.body, env, state)
+            finally:
+                self.guards = saved_guards
             if end != state:
                 self.neutrality[(tname, mname, state)] = f"macro body entered in {state} ends in {end}"
             new_labels = frozenset(self._macro_label_acc)
@@ -393,9 +401,83 @@ class JinjaInterp:
 
     # ------------------------------------------------------------------ statements
     def block(self, body: list[nodes.Node], env: dict[str, AV], state: str) -> str:
-        for n in body:
-            state = self.stmt(n, env, state)
+        n0 = len(self.guards)
+        try:
+            for n in body:
+                state = self.stmt(n, env, state)
+                if isinstance(n, nodes.If):
+                    # arms that end in continue / break do not reach the rest of this block: their conditions are false from here on
+                    tests = [n.test] + [el.test for el in n.elif_]
+                    arms = [n.body] + [el.body for el in n.elif_] + ([n.else_] if n.else_ else [])
+                    for i, arm in enumerate(arms):
+                        if any(isinstance(x, (nodes.Continue, nodes.Break)) for x in arm):
+                            cond = ("and", [("not", ("node", t)) for t in tests[:i]] + ([("node", tests[i])] if i < len(tests) else []))
+                            self.guards.append(("not", cond))
+        finally:
+            del self.guards[n0:]
         return state
+
+    # ---- guards as boolean formulas --------------------------------------------------------------------------------------------
+    @staticmethod
+    def _atoms(f: tuple, out: dict[str, nodes.Node]) -> None:
+        k = f[0]
+        if k == "node":
+            n = f[1]
+            if isinstance(n, nodes.Not):
+                JinjaInterp._atoms(("node", n.node), out)
+            elif isinstance(n, (nodes.And, nodes.Or)):
+                JinjaInterp._atoms(("node", n.left), out)
+                JinjaInterp._atoms(("node", n.right), out)
+            else:
+                out.setdefault(expr_text(n), n)
+        elif k == "not":
+            JinjaInterp._atoms(f[1], out)
+        else:
+            for g in f[1]:
+                JinjaInterp._atoms(g, out)
+
+    @staticmethod
+    def _holds(f: tuple, asg: dict[str, bool]) -> bool:
+        k = f[0]
+        if k == "node":
+            n = f[1]
+            if isinstance(n, nodes.Not):
+                return not JinjaInterp._holds(("node", n.node), asg)
+            if isinstance(n, nodes.And):
+                return JinjaInterp._holds(("node", n.left), asg) and JinjaInterp._holds(("node", n.right), asg)
+            if isinstance(n, nodes.Or):
+                return JinjaInterp._holds(("node", n.left), asg) or JinjaInterp._holds(("node", n.right), asg)
+            return asg[expr_text(n)]
+        if k == "not":
+            return not JinjaInterp._holds(f[1], asg)
+        if k == "and":
+            return all(JinjaInterp._holds(g, asg) for g in f[1])
+        return any(JinjaInterp._holds(g, asg) for g in f[1])
+
+    def reachable_with(self, alias: str, template: str) -> bool:
+        """can the current statement be reached when import alias `alias` denotes `template`?  Atoms `alias.X` (and set variables
+        defined as `alias.X`, which read `(alias.X)` after canonicalisation) are decided by whether the template defines macro X;
+        all other atoms are free.  True unless the guards are unsatisfiable (at most 2^10 assignments; beyond that: True)."""
+        atoms: dict[str, nodes.Node] = {}
+        for g in self.guards:
+            self._atoms(g, atoms)
+        known: dict[str, bool] = {}
+        macros = self.jx.templates[template].macros
+        for text in atoms:
+            t = text[1:-1] if text.startswith("(") and text.endswith(")") else text
+            if t.startswith(alias + ".") and t[len(alias) + 1:].isidentifier():
+                known[text] = t[len(alias) + 1:] in macros
+        free = [a for a in atoms if a not in known]
+        if len(free) > 10:
+            return True
+        import itertools
+
+        for vals in itertools.product([False, True], repeat=len(free)):
+            asg = dict(known)
+            asg.update(zip(free, vals))
+            if all(self._holds(g, asg) for g in self.guards):
+                return True
+        return False
 
     def stmt(self, n: nodes.Node, env: dict[str, AV], state: str) -> str:
         ti = self.cur_t
@@ -415,18 +497,27 @@ class JinjaInterp:
             self.ev(n.test, env)
             ends = []
             e1 = dict(t_env)
+            g0 = len(self.guards)
+            self.guards.append(("node", n.test))
             ends.append(self.block(n.body, e1, state))
+            del self.guards[g0:]
             envs = [e1]
             cur_f = f_env
+            negs = [("not", ("node", n.test))]
             for el in n.elif_:
                 self.ev(el.test, cur_f)
                 t2, f2 = self.narrow(el.test, cur_f)
                 e2 = dict(t2)
+                self.guards += negs + [("node", el.test)]
                 ends.append(self.block(el.body, e2, state))
+                del self.guards[g0:]
                 envs.append(e2)
                 cur_f = f2
+                negs.append(("not", ("node", el.test)))
             e3 = dict(cur_f)
+            self.guards += negs
             ends.append(self.block(n.else_, e3, state) if n.else_ else state)
+            del self.guards[g0:]
             envs.append(e3)
             if len(set(ends)) > 1:
                 self.neutrality[(ti.name, self.cur_macro, f"if {expr_text(n.test)}")] = \
@@ -450,9 +541,12 @@ class JinjaInterp:
                 e2 = dict(cur)
                 self.assign_target(n.target, elem, e2)
                 e2["loop"] = AV(types=frozenset({"loop"}))
+                g1 = len(self.guards)
                 if n.test is not None:
                     self.ev(n.test, e2)
+                    self.guards.append(("node", n.test))
                 end = self.block(n.body, e2, state)
+                del self.guards[g1:]
                 # namespace-style and outer `set`s do not leak out of a jinja for-loop, but joins are harmless
                 for k, v in e2.items():
                     if k in cur and k not in ("loop",):
@@ -828,7 +922,9 @@ class JinjaInterp:
         kwargs = {k.key: self.ev(k.value, env) for k in n.kwargs}
         where = f"{ti.name}:{n.lineno}"
         out = BOTTOM
-        undef = sorted(x[1] for x in f.funcs if x[0] == "undef")
+        alias0 = n.node.node.name if isinstance(n.node, nodes.Getattr) and isinstance(n.node.node, nodes.Name) else ""
+        # a candidate template that lacks the macro is a missing dispatch only if this call can be reached with that candidate
+        undef = sorted(x[1] for x in f.funcs if x[0] == "undef" and (not alias0 or self.reachable_with(alias0, x[1])))
         macros = [x for x in f.funcs if x[0] == "macro"]
         if undef or macros:
             alias = n.node.node.name if isinstance(n.node, nodes.Getattr) and isinstance(n.node.node, nodes.Name) else ""
